@@ -81,7 +81,11 @@ type Case struct {
 var (
 	annKeys     = []string{"a1", "a2", "a3"}
 	envKeys     = []string{"E1", "E2", "E3"}
-	mountKeys   = []string{"/m1", "/m2/", "/m1/./sub"} // two of them not in clean form: keys are compared as written
+	// Mount destinations are compared as written: two are not in clean form, one is also a
+	// device path (a mount and a device at one path are different items), and "/m2" / "/m2/"
+	// are two spellings of one directory (cases using both are judged by C03's differential
+	// oracle only, see Expect.SpellingMix).
+	mountKeys   = []string{"/m1", "/m2/", "/m1/./sub", "/dev/d1", "/m2"}
 	devKeys     = []string{"/dev/d1", "/dev/d2", "/dev/d3"}
 	cdiKeys     = []string{"v.com/c=x1", "v.com/c=x2", "v.com/c=x3"}
 	rlimitKeys  = []string{"RLIMIT_NOFILE", "RLIMIT_NPROC", "RLIMIT_CORE"}
@@ -163,7 +167,7 @@ func genOrig(t *rapid.T, full bool) Orig {
 	o := Orig{
 		Ann:      subset(t, "oann", annKeys, p),
 		Env:      subset(t, "oenv", envKeys, p),
-		Mounts:   subset(t, "omnt", mountKeys, p),
+		Mounts:   subset(t, "omnt", mountKeys[:4], p), // never both spellings of /m2 in the original
 		Devices:  subset(t, "odev", devKeys, p),
 		Args:     full || rapid.Bool().Draw(t, "oargs"),
 		Hooks:    subset(t, "ohook", hookKeys, p/2),
@@ -224,6 +228,10 @@ func genValOf(t *rapid.T) string {
 		return "rt"
 	case 3:
 		return fmt.Sprintf("p%d", rapid.IntRange(0, poolSize-1).Draw(t, "valofp"))
+	case 4, 5:
+		return "zero" // the zero / empty value (an empty class name, 0, false, "")
+	case 6:
+		return "rt~" // the runtime's mount / device with one option / the file mode changed
 	}
 	return ""
 }
@@ -511,7 +519,11 @@ func forceCollision(t *rapid.T, c *Case, i, j int) {
 		for n, idx := range []int{i, j} {
 			s := &c.Chain[idx]
 			o := op
-			switch rapid.IntRange(0, 5).Draw(t, "cvalof") {
+			switch rapid.IntRange(0, 7).Draw(t, "cvalof") {
+			case 6:
+				o.ValOf = "zero" // e.g. one of the colliders sets an empty class / a zero
+			case 7:
+				o.ValOf = "rt~"
 			case 0:
 				o.ValOf = "rt" // e.g. the first collider re-asserts the original value
 			case 1:
